@@ -17,9 +17,10 @@ from harness.core import fl, nl, bl, ll, pl, optl
 
 PROP = "C05"
 THEOREMS = {"Artap.Props.C05": [
-    "C05_evaluate_once", "C05_evaluate_once_history", "C05_repeated_evaluate_adds_no_call",
-    "C05_evaluated_design_untouched", "C05_costs_belong_to_vector", "C05_signed_costs_spec",
-    "C05_marker_ranks_feasible_first", "C05_sweep_order", "C05_scalar_bridge", "C05_round7_q_precision"]}
+    "C05_evaluate_once", "C05_evaluate_once_history", "C05_evaluate_once_all_histories", "C05_evaluated_design_untouched",
+    "C05_repeated_evaluate_adds_no_call", "C05_costs_belong_to_vector", "C05_signed_costs_spec",
+    "C05_marker_ranks_feasible_first", "C05_sweep_order", "C05_scalar_bridge", "C05_scalar_bridge_general",
+    "C05_round7_q_precision", "C05_round7_q_fixpoint"]}
 AXIOMS_OK = []
 TRUSTED = [
     "Coq 8.16.1 kernel, vm_compute for model evaluation (no native_compute)",
